@@ -39,7 +39,11 @@ UNDEF_WHITELIST = {"nondet_u8", "nondet_u16", "nondet_u32", "nondet_u64"}
 
 def load_spec(prop):
     path = os.path.join(VERIF, "harness", prop, "spec.py")
-    g = {"__file__": path}
+    cpath = os.path.join(VERIF, "harness", "common", "specs.py")
+    cg = {"__file__": cpath}
+    with open(cpath) as f:
+        exec(compile(f.read(), cpath, "exec"), cg)
+    g = {"__file__": path, "COMMON": cg}
     with open(path) as f:
         exec(compile(f.read(), path, "exec"), g)
     return g
@@ -138,6 +142,65 @@ def asm_left(root, src, defs, extra_units):
     return found
 
 
+def list_loops(gb):
+    """[(loop id, file path, line)] from goto-instrument --show-loops"""
+    rc, o, e, dt = run(["goto-instrument", "--show-loops", gb], timeout=600)
+    out = []
+    cur = None
+    for line in o.splitlines():
+        m = re.match(r"Loop (\S+):", line)
+        if m:
+            cur = m.group(1)
+            continue
+        m = re.match(r"\s+file (\S+) line (\d+) function (\S+)", line)
+        if m and cur:
+            out.append((cur, m.group(1), int(m.group(2))))
+            cur = None
+    return out
+
+
+_src_cache = {}
+
+
+def _src_lines(path):
+    if path not in _src_cache:
+        try:
+            with open(path, errors="replace") as f:
+                _src_cache[path] = f.read().splitlines()
+        except OSError:
+            _src_cache[path] = []
+    return _src_cache[path]
+
+
+def resolve_unwindset(gb, spec):
+    """spec keys are either CBMC loop ids ("f.3") or "function:/regex/" which
+    selects every loop of that function whose head (source lines line-1..line+4)
+    matches the regex - robust against renumbering when code is edited"""
+    out = {}
+    notes = []
+    loops = None
+    for k, v in spec.items():
+        m = re.match(r"^([A-Za-z_][A-Za-z0-9_]*):/(.*)/$", k)
+        if not m:
+            out[k] = v
+            continue
+        if loops is None:
+            loops = list_loops(gb)
+        fn, rx = m.group(1), re.compile(m.group(2))
+        hit = 0
+        for lid, path, line in loops:
+            if lid.rsplit(".", 1)[0] != fn:
+                continue
+            src = _src_lines(path)
+            window = "\n".join(src[max(0, line - 2):line + 4])
+            if rx.search(window):
+                out[lid] = max(out.get(lid, 0), v)
+                hit += 1
+        if not hit:
+            notes.append("no loop matches %s" % k)
+    return out, notes
+
+
 def run_case(ctx, h, case, root):
     """one solver query (all properties of one harness/case).  Returns dict."""
     cname = "%s-%s" % (h["name"], case["name"])
@@ -198,9 +261,12 @@ def run_case(ctx, h, case, root):
         res["detail"] = "closed-world check: reachable functions without body: %s" % bad
         return res
 
-    uw = dict(h.get("unwindset", {}))
-    uw.update(case.get("unwindset", {}))
+    uw_spec = dict(h.get("unwindset", {}))
+    uw_spec.update(case.get("unwindset", {}))
+    uw, uw_notes = resolve_unwindset(gb3, uw_spec)
     res["unwindset"] = uw
+    if uw_notes:
+        res["unwind_notes"] = uw_notes
     cmd = ["cbmc", gb3, "--json-ui", "--trace",
            "--unwinding-assertions", "--no-standard-checks", "--drop-unused-functions"]
     checks = h.get("checks", DEFAULT_CHECKS)
@@ -214,7 +280,7 @@ def run_case(ctx, h, case, root):
     if "unwind" in case or "unwind" in h:
         cmd += ["--unwind", str(case.get("unwind", h.get("unwind")))]
     cmd += h.get("cbmc_flags", []) + case.get("cbmc_flags", [])
-    cap = case.get("cap_s", h.get("cap_s", 300 if ctx.tier == "quick" else 1800))
+    cap = int(os.environ.get("VF_CAP", 0)) or case.get("cap_s", h.get("cap_s", 300 if ctx.tier == "quick" else 1800))
     mem = case.get("mem_gb", h.get("mem_gb", 12))
     outp = os.path.join(wd, "out.json")
     rc, o, e, dt = run(cmd, timeout=cap, mem_gb=mem, stdout_path=outp)
@@ -474,8 +540,10 @@ def main():
                 rp = native_replay(ctx, h, c, roots[h["name"]], tape, tag)
                 confirmed = False
                 if rp.get("built"):
+                    # a sanitizer report on the replay tape is a real fault
+                    # of the code under test even when it pre-empts the label
                     if p["kind"] == "assert":
-                        confirmed = label in rp["labels"]
+                        confirmed = (label in rp["labels"]) or rp["sanitizer"]
                     else:
                         confirmed = rp["sanitizer"]
                 k = match_known(known, prop, h["name"], c["name"], label) if p["kind"] == "assert" else \
